@@ -111,6 +111,21 @@ pub mod fs {
         { unimplemented!() }
     }
 
+    impl File {
+        /// ftruncate(2): cut (or zero-extend) the file to `n` bytes
+        #[verifier::external_body]
+        pub fn set_len(&self, n: u64, Tracked(w): Tracked<&mut World>) -> (r: io::Result<()>)
+            requires old(w).fs.files.contains_key(self@.path)
+            ensures
+                old(w).healthy == final(w).healthy, world_wf(*old(w)) ==> world_wf(*final(w)), hist_ext(*old(w), *final(w)),
+                r is Err ==> final(w).fs == old(w).fs && final(w).hist == old(w).hist,
+                r is Ok ==> final(w).hist == old(w).hist.push(final(w).fs)
+                    && final(w).fs.files.dom() == old(w).fs.files.dom() && same_except(old(w).fs, final(w).fs, self@.path) && final(w).fs.dirs == old(w).fs.dirs
+                    && final(w).fs.files[self@.path].len() == n
+                    && (n <= old(w).fs.files[self@.path].len() ==> final(w).fs.files[self@.path] == old(w).fs.files[self@.path].subrange(0, n as int)),
+                old(w).healthy && (self@.mode.write || self@.mode.append) ==> r is Ok,
+        { unimplemented!() }
+    }
     #[verifier::external_body]
     pub fn read<A: PathArg>(p: A, Tracked(w): Tracked<&World>) -> (r: io::Result<Vec<u8>>)
         ensures
@@ -191,6 +206,23 @@ pub mod fs {
         pub fn new() -> (r: DirBuilder) ensures r@ == false { unimplemented!() }
         #[verifier::external_body]
         pub fn recursive(&mut self, rec: bool) -> (r: &mut DirBuilder) ensures r@ == rec, *final(r) == *final(self) { unimplemented!() }
+        /// recursive: mkdir -p (tolerant of existing directories); non-recursive: one mkdir
+        #[verifier::external_body]
+        pub fn create<A: PathArg>(&self, p: A, Tracked(w): Tracked<&mut World>) -> (r: io::Result<()>)
+            ensures
+                old(w).healthy == final(w).healthy,
+                world_wf(*old(w)) ==> world_wf(*final(w)),
+                hist_ext(*old(w), *final(w)),
+                mkdirs_post(old(w).fs, final(w).fs, p.pathv()),
+                forall|i: int| old(w).hist.len() <= i < final(w).hist.len() ==> mkdirs_post(old(w).fs, #[trigger] final(w).hist[i], p.pathv()),
+                !self@ ==> forall|d: PathV| final(w).fs.dirs.contains(d) && !old(w).fs.dirs.contains(d) ==> d == p.pathv(),
+                r is Ok ==> final(w).fs.dirs.contains(p.pathv()),
+                old(w).healthy && self@ && !exists_file_on_path(old(w).fs, p.pathv()) ==> r is Ok,
+        { unimplemented!() }
+    }
+    /// some proper-or-equal ancestor of p is a regular file or a symlink (mkdir -p then fails)
+    pub open spec fn exists_file_on_path(fs: Fs, p: PathV) -> bool {
+        exists|d: PathV| under(p, d) && (#[trigger] fs.files.contains_key(d) || fs.links.contains_key(d))
     }
 
     // ---- writing -------------------------------------------------------------------------
